@@ -76,7 +76,7 @@ def check_one(case, ctx, deep):
 
 
 def plan(tier, seed):
-    return tablecheck.plan(tier, seed, quick_cells=12, thorough_cells=16, thorough_shapes=(), thorough_multisets=(),
+    return tablecheck.plan(tier, seed, wide=True, quick_cells=12, thorough_cells=16, thorough_shapes=(), thorough_multisets=(),
                            hyp_quick=(12, 80), hyp_thorough=(16, 800))
 
 
